@@ -681,6 +681,8 @@ compact_theta_sketch_alloc<A> compact_theta_sketch_alloc<A>::deserialize_v4(
   if (!is_empty) checker<true>::check_seed_hash(seed_hash, compute_seed_hash(seed));
   uint64_t theta = theta_constants::MAX_THETA;
   if (preamble_longs > 1) theta = read<uint64_t>(is);
+  if (entry_bits < 1 || entry_bits > 63) throw std::invalid_argument("unexpected entry bits " + std::to_string(entry_bits));
+  if (num_entries_bytes > 4) throw std::invalid_argument("unexpected number of bytes for the entry count " + std::to_string(num_entries_bytes));
   uint32_t num_entries = 0;
   for (unsigned i = 0; i < num_entries_bytes; ++i) {
     num_entries |= read<uint8_t>(is) << (i << 3);
